@@ -175,6 +175,38 @@ def run(R, tier):
                          algebra=spec, op=op, names=names)
                 except Exception:
                     pass
+    # coefficients of very small / very large magnitude next to symbols: a blade may be dropped only if its coefficient is
+    # identically zero, however small the numbers involved (relative comparison)
+    for it in range(12 if tier == 'quick' else 150):
+        d = rng.choice((2, 3))
+        alg = algs.make_impl({'sig': [1] * d})
+        canon = list(alg.canon2bin.values())
+        scale = 2.0 ** rng.choice((-120, -80, -50, -45, 40, 90))
+        ks = rng.sample(canon, 2); kn = rng.sample(canon, rng.randint(1, 2))
+        syms = [sympy.Symbol(nm) for nm in rng.sample(NAMES, 2)]
+        point = {sy: Fraction(rng.randint(1, 5), rng.randint(1, 3)) for sy in syms}
+        smv = MultiVector.fromkeysvalues(alg, tuple(ks), list(syms))
+        cvals = [scale * rng.randint(1, 7) for _ in kn]
+        cmv = MultiVector.fromkeysvalues(alg, tuple(kn), list(cvals))
+        nmv = MultiVector.fromkeysvalues(alg, tuple(ks), [point[sy] for sy in syms])
+        cfr = MultiVector.fromkeysvalues(alg, tuple(kn), [Fraction(c) for c in cvals])
+        op = rng.choice(['gp', 'op', 'add', 'sub', 'ip'])
+        R.count('op=' + op); R.count('tiny-or-huge-coefficients'); R.case(('scale', it, op, tuple(ks), tuple(kn), scale), True)
+        try:
+            sym = getattr(alg, op)(cmv, smv)
+            num = getattr(alg, op)(cfr, nmv)
+            got = {int(k): float(sympy.sympify(v).subs({sy: rat(point[sy]) for sy in syms})) for k, v in zip(sym.keys(), sym.values())}
+            want = {int(k): float(v) for k, v in zip(num.keys(), num.values())}
+        except Exception as e:  # noqa
+            viol('symbolic-raises', f'{op} of a float multivector (scale {scale:g}) and a symbolic one raised {type(e).__name__}: {e}'[:300], op=op, scale=scale)
+            continue
+        for k in set(got) | set(want):
+            g, w = got.get(k, 0.0), want.get(k, 0.0)
+            if abs(g - w) > 1e-9 * max(abs(w), abs(g)):
+                viol('subst-subs', f'{op} of coefficients {cvals} on blades {kn} with symbols {syms} on blades {ks} in Algebra(sig={[1] * d}): blade {k} evaluates to {g!r} after '
+                                   f'substituting {point}, operating on the numbers gives {w!r} (a blade whose coefficient is not identically zero must not be dropped)',
+                     op=op, scale=scale, keys=[kn, ks])
+                break
     # argument binding on hand-built expressions
     alg = algs.make_impl({'sig': [1, 1]})
     m = alg.multivector(e1='b+1', e2='a*b', e12='c-a')
